@@ -105,6 +105,9 @@ def make_shards(prop, cfg, seed, tier, root):
         # deep / large-capacity histories, one per shard so that they run in parallel
         for h in gen.gen_deep(prop, seed, tier):
             shards.append(h.text())
+        if prop == "C03":
+            for h in gen.gen_c03_sweep(seed):
+                shards.append(h.text())
     for s in range(nshard):
         hs = gen_histories(prop, cfg, seed, s, nhist, tier)
         if prop == "C10" and s == 0:
